@@ -393,8 +393,38 @@ PROPS["C04"] = dict(
     floor=dict(quick=6000, thorough=100000),
 )
 
+import os as _os
+VALGRIND = ["valgrind", "-q", "--error-limit=no", "--num-callers=14", "--leak-check=no", "--error-exitcode=0",
+            "--suppressions=" + _os.path.join(_os.path.dirname(_os.path.dirname(_os.path.abspath(__file__))), "harness", "c08.supp")]
+
+def _c08_target(opt):
+    return dict(name="c08_ct_" + opt, src="c08_ct.cpp", flavour="ct" + opt, libs=["-lcrypto"], c_src=["c09_shim.c"], wrap=VALGRIND)
+
+PROPS["C08"] = dict(
+    level="exploration",
+    technique="generated-input search under dynamic secret-taint tracking: rapidcheck / an enumerator choose the public side of each constant-time call (entry point, implementation, sizes, validity class) and concrete secrets; the compiled library runs under valgrind-memcheck with every secret byte marked undefined, and the oracle is 'no secret-dependent branch or address during the call' (memcheck error count before/after), with mandatory positive controls and an output-still-tainted non-vacuity test",
+    rule=("case = (family among inner.h primitives + conditional copy; i15/i31/i32/i62 add/sub/montymul/to-from_monty/modpow/modpow_opt/decode_mod/moddiv/encode; "
+          "rsa i15/i31/i32/i62 private / pkcs1_sign / oaep_decrypt (valid and invalid padding) / ssl_decrypt (valid and invalid); ec mul / mulgen / compute_pub for "
+          "prime_i15/i31, p256_m15/m31/m62/m64, c25519_i15/i31/m15/m31/m62/m64 on every curve; ecdsa i15/i31 sign_raw; aes_ct / aes_ct64 / des_ct cbcenc-cbcdec-ctr-ctrcbc; "
+          "chacha20_ct; poly1305 ctmul/ctmul32/ctmulq/i15; ghash ctmul/ctmul32/ctmul64; hmac_outCT with secret length in public [min,max]; gcm/eax/ccm decrypt + "
+          "check_tag with right and wrong tags; CBC record decryption over AES/3DES x SHA-1/256/384 x TLS 1.0-1.2 x padding lengths x {valid, wrong padding byte, wrong "
+          "MAC byte, lying padding length, altered plaintext}; GCM / ChaCha20-Poly1305 / CCM record decryption valid and altered). Secrets = key material, scalars, "
+          "nonces, plaintext, decrypted padding, computed tags, validity. non-trivial = the call ran under valgrind and its output still carried taint; distinct = "
+          "(entry point, implementation, public parameters); optimisation level -Os in quick, -O0/-Os/-O2 in thorough"),
+    assumptions=["memcheck definedness propagation is an over-approximation of 'depends on a secret' for branches and addresses; compiler-generated conditional moves are (correctly) not counted as branches",
+                 "only x86-64 gcc code generation is observed, not the Xtensa compiler of the port; micro-architectural effects (variable-time multipliers) are out of scope",
+                 "values the source itself declares public are declassified by the guarded BR_VERIF_PUBLIC marks (hook H3): final accept/reject of a record, announced factor bit lengths, validated OAEP message length, RFC 6979 candidate test",
+                 "the T0-level server handling of a bad premaster / bad ECDH point is covered through br_rsa_ssl_decrypt and the EC multiplications it calls, not through a scripted handshake"],
+    targets=[_c08_target("Os"), _c08_target("O0"), _c08_target("O2")],
+    quick=[("c08_ct_Os", "enum", dict(shards=16)),
+           ("c08_ct_Os", "rc", dict(cases=2400, shards=16))],
+    thorough=[("c08_ct_Os", "enum", dict(shards=16)), ("c08_ct_O0", "enum", dict(shards=16)), ("c08_ct_O2", "enum", dict(shards=16)),
+              ("c08_ct_Os", "rc", dict(cases=16000, shards=16)), ("c08_ct_O0", "rc", dict(cases=4000, shards=16)), ("c08_ct_O2", "rc", dict(cases=16000, shards=16))],
+    floor=dict(quick=400, thorough=4000),
+)
+
 # ---------------------------------------------------------------- manifest text
-HOOK_COMMITS = ["b37444c", "e1637c5"]
+HOOK_COMMITS = ["b37444c", "e1637c5", "f7dee02"]
 NOT_APPLICABLE = {}
 MANIFEST_TEXT = {}
 MANIFEST_TEXT["C12"] = dict(
@@ -578,4 +608,14 @@ MANIFEST_TEXT["C04"] = dict(
           "through the time callback; every byte of every signed part and signature of accepted chains is altered by the enumerator."),
     design_ref="DESIGN.md section 4, C04",
     note="malformed DER is the business of C05/C07; here every input is well-formed and the question is the verdict",
+)
+
+MANIFEST_TEXT["C08"] = dict(
+    text=("Secret-taint tracking driven by generated public parameters: the harness marks key material, scalars, plaintexts and decrypted padding as "
+          "undefined and runs the call under valgrind-memcheck, whose bit-precise definedness propagation then covers all secret values of the "
+          "executed path at once; any conditional jump or memory address that depends on a secret raises a memcheck error, which the target turns "
+          "into a violation tied to the generated case (and shrunk with it). Table-based AES/DES and memcmp on a tag are run as positive "
+          "controls and must be reported, and every case checks that its output is still tainted, so a harness that failed to poison cannot pass."),
+    design_ref="DESIGN.md section 4, C08",
+    note="the secondary trace-differential cross-check of the design was not built; compiler levels O0/O2 only in the thorough tier",
 )
